@@ -14,7 +14,7 @@
                         /\ whenever order = pre ++ (b,p) :: suf, every child of p is a leaf or
                            occurs in pre. *)
 From Coq Require Import Permutation.
-From Ctg Require Import Base Net Einsum Program Arrays BaseFacts NetFacts SumOver TreeEval ProgramFacts ExecOrderFacts.
+From Ctg Require Import Base Net Einsum Program Arrays BaseFacts NetFacts SumOver TreeEval ProgramFacts ExecOrderFacts ExecOrderTdot.
 
 (* (O1) einsum path (prefer_einsum = True): shape and every entry *)
 Theorem C01ord_linear_exec_is_recursive : forall n sl arr e0 l r order,
@@ -85,6 +85,24 @@ Theorem C01ord_linear_exec_any_preference_is_einsum_partial : forall n sl arr e0
   = einsum_spec n sl arr e.
 Proof. exact exec_order_any_pref_is_einsum. Qed.
 Print Assumptions C01ord_linear_exec_any_preference_is_einsum_partial.
+
+(* FULL STRENGTH (Proofs/ExecOrderTdot.v glues Proofs/TdotFacts.v in): the hypothesis
+   tdot_step_ok_at of the two `_partial` statements above holds for every tree over the
+   network's tensors (tensordot with get_tensordot_axes followed by transpose with
+   get_tensordot_perm IS the node's einsum), so for every prefer_einsum and every valid order the
+   linear execution returns the einsum, at the declared output positions. *)
+Theorem C01ord_tensordot_steps_always_ok : forall n sl e0 t,
+  inrange n (leaves t) -> NoDup (output n) -> tdot_step_ok_at n sl e0 t.
+Proof. exact tdot_step_ok_holds. Qed.
+Print Assumptions C01ord_tensordot_steps_always_ok.
+
+Theorem C01ord_linear_exec_any_preference_is_einsum : forall n sl arr e0 pe l r order,
+  wf_net n -> full_tree n (Node l r) -> valid_order (Node l r) order ->
+  forall e, agree_removed sl e0 e ->
+  snd (exec_program n sl arr e0 (program n sl pe (Node l r) order) (Node l r)) (map e (out_inds n sl))
+  = einsum_spec n sl arr e.
+Proof. exact exec_any_order_any_pref_is_einsum. Qed.
+Print Assumptions C01ord_linear_exec_any_preference_is_einsum.
 
 (* the boolean check of an order (usable by the harness on what traverse() really yields) is sound *)
 Theorem C01ord_valid_order_check_sound : forall t order,
